@@ -227,6 +227,9 @@ func (c *Check) idProvenance() {
 			if fn.Parent() != nil || fn.Signature.Recv() == nil || !strings.Contains(fn.Signature.Recv().Type().String(), "msgServer") || len(fn.Params) != 3 {
 				continue
 			}
+			if isNewFunc(fn) && len(l.callSitesOf(fn)) > 0 {
+				continue // a new helper of a handler: its calls are enumerated with the handler that calls it
+			}
 			n++
 			c.Analysed(fnName(fn))
 			bad := ""
@@ -245,7 +248,7 @@ func (c *Check) idProvenance() {
 							continue
 						}
 						s := Sym(a)
-						if !derivesFromMsg(s, fn.Params[2].Name()) {
+						if !derivesFromMsg(s, paramName(fn.Params[2])) {
 							bad += calleeMethod(call) + "(" + short(s) + "); "
 							pos = call.Pos()
 						}
